@@ -187,9 +187,16 @@ CLAIMED = {
               "slotting returns the batches in document order for ANY completion order; ANY interleaving of the threads' "
               "tokenisations gives an arrival-order dictionary that is total and injective on the vocabulary; two builds "
               "with different batch sizes, worker counts, completion orders and interleavings answer every query alike "
-              "(C08_threaded_builds_agree). PARTIAL: atomicity of TermDict.add_term is the model's assumption (the check "
-              "forces a preemption inside it: that is how the unlocked check/len/store race, now repaired, was found), "
-              "caches and memory-mapping are not in the theorem; the check builds the real "
+              "(C08_threaded_builds_agree). The remaining settings (Store/Settings*.v): for every non-empty corpus, any two "
+              "cache thresholds, with or without auto-warming, every operation history returns the same outputs - those of a "
+              "cache-free reference evaluator (C08_answers_are_cache_free, C08_cache_threshold_and_warming_irrelevant); "
+              "avoid_copies True and False answer every query alike on every selection chain (C08_avoid_copies_irrelevant); "
+              "an index stored in a data directory re-loads, in any later directory state, as the in-memory one "
+              "(C08_data_dir_irrelevant); C08_settings_irrelevant combines batch size x threshold x auto-warming x "
+              "avoid_copies x data_dir. PARTIAL: atomicity of TermDict.add_term is the model's assumption (the check "
+              "forces a preemption inside it: that is how the unlocked check/len/store race, now repaired, was found); the "
+              "cache machine covers avoid_copies=True pools only (avoid_copies=False objects are compared through their pure "
+              "answers); np.memmap itself is not modelled; the check builds the real "
               "index under batch sizes 1..n+1, 1..8 workers, FORCED completion orders, tiny switch intervals, GIL-yielding "
               "tokenizers, cache/autowarm/avoid_copies/data_dir settings and compares every answer with the single-batch "
               "index, the model and the spec."),
